@@ -35,6 +35,8 @@ class MSeq:
             return Trunc("q", self.prefix(PER))
         if len(self.items) > PER:
             return Trunc("q", self.items[:PER])
+        if len(self.items) == PER:
+            return AnyOf(list(self.items), Trunc("q", self.items))
         return list(self.items)
 
 
